@@ -3,7 +3,7 @@
 // Bounded-exhaustive enumeration in crash-isolating worker processes (a child that dies is a
 // finding in itself: the parent knows which input was in flight):
 //
-//	soup     every token sequence of <= 3 (thorough 4) tokens over a 46-token alphabet
+//	soup     every token sequence of <= 3 (thorough 4) tokens over a 68-token alphabet
 //	edits    every single-token deletion / duplication of every program of the function, container
 //	         and error families (run, not only compiled)
 //	hostile  every default-global callable and every method name x hostile argument tuples (cyclic
@@ -46,7 +46,9 @@ import (
 )
 
 var soupToks = []string{"x", "1", "1.5", `"s"`, "'t{x}'", "`b`", "true", "nil", "func", "return", "if", "else", "for", "range", "in", "not", "switch", "case", "default", "break", "continue", "import", "from", "as", "const", "go", "defer",
-	"(", ")", "[", "]", "{", "}", ",", ":", ";", "\n", ".", "=", ":=", "+", "-", "*", "==", "<", "!", "&&", "|", "?", "<-", "++", "+=", "/*", "\"", "\x00", "0x"}
+	"(", ")", "[", "]", "{", "}", ",", ":", ";", "\n", ".", "=", ":=", "+", "-", "*", "==", "<", "!", "&&", "|", "?", "<-", "++", "+=", "/*", "\"", "\x00", "0x",
+	// template strings with unusual interpolations (lexed as one token, parsed by a nested parser)
+	"'{}'", "'{ }'", "'{#}'", "'a{// c}b'", "'{/* c */}'", "'{1}{'", "'{{'", "'{x;y}'", "'{\n}'", "'{'", "'{)}'", "'{x :=}'"}
 
 // ------------------------------------------------------------------ input spaces
 
@@ -575,7 +577,7 @@ func Check(r *ev.Run, replay string) {
 		sort.Strings(skipped)
 		r.Set("skipped_inputs", skipped)
 	}
-	r.Set("rule", "soup: every sequence of <= 3 (thorough 4) tokens over a 56-token alphabet; edits: every single-token deletion and duplication of every program of the function/container/error/closure families (every 6th program in quick); hostile: every default-global callable (exec, network modules and exit excluded) x hostile argument tuples (arity 0-2; thorough all pairs), every method name x hostile receiver x hostile argument, operators/interpolation/indexing on all pairs of 22 hostile values; nesting: 17 constructs nested 10..10^3 (thorough 10^6) deep. Every input runs parse, String, compile, Eval (15 ms deadline, virtual OS) and the error formatters in a worker child; distinct = worker batches completed")
+	r.Set("rule", "soup: every sequence of <= 3 (thorough 4) tokens over a 68-token alphabet; edits: every single-token deletion and duplication of every program of the function/container/error/closure families (every 6th program in quick); hostile: every default-global callable (exec, network modules and exit excluded) x hostile argument tuples (arity 0-2; thorough all pairs), every method name x hostile receiver x hostile argument, operators/interpolation/indexing on all pairs of 22 hostile values; nesting: 17 constructs nested 10..10^3 (thorough 10^6) deep. Every input runs parse, String, compile, Eval (15 ms deadline, virtual OS) and the error formatters in a worker child; distinct = worker batches completed")
 }
 
 var frameRe = regexp.MustCompile(`github.com/risor-io/risor/([a-zA-Z0-9_/]+)\.(\(\*?[A-Za-z0-9_]+\)\.)?([A-Za-z0-9_]+)`)
